@@ -764,20 +764,65 @@ func (ig *Integration) setCols() {
 func (ig Integration) Name() string { return ig.name }
 
 func (ig Integration) Filter() glf.Filter {
-	var (
-		fields []string
-		addrs  []string
-	)
+	var fields []string
 	for i := range ig.Block {
 		fields = append(fields, ig.Block[i].Name)
+	}
+	return *glf.New(fields, ig.filterAddrs(), [][]string{{eth.EncodeHex(ig.sighash)}})
+}
 
-		if ig.Block[i].Name == "log_addr" && len(ig.Block[i].Filter.Arg) > 0 {
-			for _, arg := range ig.Block[i].Filter.Arg {
-				addrs = append(addrs, eth.EncodeHex(eth.DecodeHex(arg)))
-			}
+// Addresses that eth_getLogs may be restricted to without
+// withholding a log that the filters accept: the arguments of the
+// positive (contains, eq) log_addr filters -- provided that every
+// accepted row has to pass one of them, i.e. filter_agg is "and"
+// or there is no other filter.
+func (ig Integration) filterAddrs() []string {
+	var (
+		addrs          []string
+		nfilters, npos int
+	)
+	active := func(f Filter) bool {
+		return len(f.Arg) > 0 || len(f.Ref.Integration) > 0
+	}
+	for _, inp := range ig.Event.Selected() {
+		if active(inp.Filter) {
+			nfilters++
 		}
 	}
-	return *glf.New(fields, addrs, [][]string{{eth.EncodeHex(ig.sighash)}})
+	for _, bd := range ig.Block {
+		if !active(bd.Filter) {
+			continue
+		}
+		nfilters++
+		if bd.Name != "log_addr" || !addrFilter(bd.Filter) {
+			continue
+		}
+		npos++
+		for _, arg := range bd.Filter.Arg {
+			addrs = append(addrs, eth.EncodeHex(eth.DecodeHex(arg)))
+		}
+	}
+	if npos == 0 || (ig.filterAGG != "and" && npos != nfilters) {
+		return nil
+	}
+	return addrs
+}
+
+// reports whether f accepts a log address only if it
+// is one of f's arguments
+func addrFilter(f Filter) bool {
+	if f.Op != "contains" && f.Op != "eq" {
+		return false
+	}
+	if len(f.Arg) == 0 || len(f.Ref.Table) > 0 {
+		return false
+	}
+	for _, arg := range f.Arg {
+		if len(eth.DecodeHex(arg)) != 20 {
+			return false
+		}
+	}
+	return true
 }
 
 func (ig Integration) Delete(ctx context.Context, pg wpg.Conn, n uint64) error {
